@@ -8,4 +8,6 @@ def check(ctx, rep):
     _rx13.rx_13(ctx, rep)       # the lexical patterns are blind to the spelling of line breaks
     from ..rules import eff as _eff1
     _eff1.eff_1(ctx, rep, only=[('parso/python/tokenize.py', 'tokenize'), ('parso/python/tokenize.py', 'tokenize_lines')], minimum=5)     # nothing outlives a call: the result is a function of the arguments alone
+    from ..rules import tok as _tok15
+    _tok15.tok_15(ctx, rep)     # the dispatch types as NUMBER exactly what the Number pattern matches
     rep.note('Not decided: token-stream equality on all valid programs (layout logic: indent columns, bracket depth).')
